@@ -28,6 +28,21 @@ fn has_quote_hazard(want: &Node) -> bool {
 
 const QUOTE_SIG: &str = "C16|document-has-single-line-string-with-quote-or-backslash";
 
+/// would printing `v` verbatim between `"""` delimiters denote `v` again under the spec's BlockStringValue()?
+fn block_print_is_exact(v: &str) -> bool {
+    if v.contains('\r') || v.ends_with('"') || v.ends_with('\\') || v.contains("\\\"") || v.contains("\"\"\"") {
+        return false;
+    }
+    let lines: Vec<&str> = v.split('\n').collect();
+    let blank = |l: &str| l.chars().all(|c| c == ' ' || c == '\t');
+    if blank(lines[0]) || blank(lines[lines.len() - 1]) {
+        return false;
+    }
+    // common indentation of the lines after the first that are not blank
+    let indent = lines[1..].iter().filter(|l| !blank(l)).map(|l| l.chars().take_while(|c| *c == ' ' || *c == '\t').count()).min();
+    matches!(indent, None | Some(0))
+}
+
 fn diff_sigs(prefix: &str, want: &Node, got: &Node) -> Vec<(String, String)> {
     if has_quote_hazard(want) {
         // print_string does not escape '"' and '\\' in single-line strings (known finding): the printed text of such a
@@ -46,7 +61,10 @@ fn diff_sigs(prefix: &str, want: &Node, got: &Node) -> Vec<(String, String)> {
                 let class = if d.tag.starts_with("block") {
                     "block-source"
                 } else if d.want_label.contains('\n') {
-                    "cooked-multi-line"
+                    // printed as `"""` + value + `"""`: exact unless BlockStringValue() would strip indentation or blank
+                    // first/last lines, normalise a CR, or the closing quotes would run into a trailing `"` (the listed
+                    // finding); a multi-line value with none of that must survive
+                    if block_print_is_exact(&d.want_label) { "multi-line-safe-for-block-printing" } else { "cooked-multi-line" }
                 } else if d.want_label.contains('"') || d.want_label.contains('\\') {
                     "single-line-with-quote-or-backslash"
                 } else {
@@ -138,7 +156,7 @@ fn classify_unparsable(want: &Node) -> String {
     if has_quote_hazard(want) {
         return "quote-hazard".into();
     }
-    if any(want, &|n| matches!(n.kind, "StringValue" | "Description") && (n.label.contains('\n') || n.tag == "block")) {
+    if any(want, &|n| matches!(n.kind, "StringValue" | "Description") && (n.tag.starts_with("block") || (n.label.contains('\n') && !block_print_is_exact(&n.label)))) {
         "has-block-or-multi-line-string".into()
     } else if any(want, &|n| matches!(n.kind, "StringValue" | "Description" | "ImportPath") && (n.label.contains('"') || n.label.contains('\\'))) {
         "has-string-with-quote-or-backslash".into()
@@ -155,14 +173,22 @@ fn is_builtin_def(d: &TsDef) -> bool {
     }
 }
 
-fn strip_nitrogql(doc: &TsDoc) -> TsDoc {
+fn strip_nitrogql(doc: &TsDoc, model_plugin: bool) -> TsDoc {
     let mut out = vec![];
     for d in &doc.defs {
         match d {
             TsDef::Directive(dd) if dd.name.s == "nitrogql_ts_type" => {}
+            TsDef::Directive(dd) if model_plugin && dd.name.s == "model" => {}
             TsDef::Type(t) => {
                 let mut t = t.clone();
                 t.dirs.retain(|x| x.name.s != "nitrogql_ts_type");
+                if model_plugin && t.kind == TKind::Object {
+                    // the model plugin's directive is removed from objects and their fields; everything else stays, in order
+                    t.dirs.retain(|x| x.name.s != "model");
+                    for f in t.fields.iter_mut() {
+                        f.dirs.retain(|x| x.name.s != "model");
+                    }
+                }
                 out.push(TsDef::Type(t));
             }
             d => out.push(d.clone()),
@@ -173,6 +199,10 @@ fn strip_nitrogql(doc: &TsDoc) -> TsDoc {
 
 /// server schema clause: `sdl` (the evaluated module value) must denote strip(merge(files))
 pub fn check_server_sdl(files: &[String], sdl: &str, route: &str, replay: &Value) -> Vec<Violation> {
+    check_server_sdl_with(files, sdl, route, replay, false)
+}
+
+pub fn check_server_sdl_with(files: &[String], sdl: &str, route: &str, replay: &Value, model_plugin: bool) -> Vec<Violation> {
     let mk = |sig: String, detail: String| Violation { sig, detail, replay: replay.clone() };
     let mut docs = TsDoc::default();
     for f in files {
@@ -181,7 +211,7 @@ pub fn check_server_sdl(files: &[String], sdl: &str, route: &str, replay: &Value
             Err(_) => return vec![],
         }
     }
-    let want = strip_nitrogql(&merge_extensions(&docs));
+    let want = strip_nitrogql(&merge_extensions(&docs), model_plugin);
     let mut out = vec![];
     let got = match refparse::parse_ts(sdl) {
         Ok(g) => g,
@@ -231,6 +261,9 @@ const OP_FOR_SCHEMA: &str = "query Q { __typename }\n";
 
 pub fn check_server_project(ctx: &Ctx, case: u64, schema_files: &[String], via_cli: bool) -> Vec<Violation> {
     let replay = json!({"property":"C16","kind":"server","files":schema_files,"cli":via_cli});
+    // schemas that apply @model are generated only for the CLI route, with the model plugin configured
+    let model_plugin = schema_files.iter().any(|f| f.contains("@model"));
+    let via_cli = via_cli || model_plugin;
     let mut out = vec![];
     if via_cli {
         let dir = cli::scratch_dir(&ctx.out, "c16", case);
@@ -255,7 +288,8 @@ pub fn check_server_project(ctx: &Ctx, case: u64, schema_files: &[String], via_c
             }
         }
         let scalar_cfg = if scalar_cfg.is_empty() { String::new() } else { format!("      type:\n        scalarTypes:\n{scalar_cfg}") };
-        files.push(("graphql.config.yaml".into(), format!("schema: ./schema/*.graphql\ndocuments: ./op.graphql\nextensions:\n  nitrogql:\n    generate:\n      schemaOutput: ./out/schema.d.ts\n      serverGraphqlOutput: ./out/server.ts\n{scalar_cfg}")));
+        let plugins = if model_plugin { "    plugins:\n      - \"nitrogql:model-plugin\"\n" } else { "" };
+        files.push(("graphql.config.yaml".into(), format!("schema: ./schema/*.graphql\ndocuments: ./op.graphql\nextensions:\n  nitrogql:\n{plugins}    generate:\n      schemaOutput: ./out/schema.d.ts\n      serverGraphqlOutput: ./out/server.ts\n{scalar_cfg}")));
         if cli::write_project(&dir, &files).is_ok() {
             let r = cli::run_cli(&ctx.cli, &dir, &["generate", "--output-format", "json"], Duration::from_secs(60));
             if r.status == Some(0) {
@@ -264,7 +298,7 @@ pub fn check_server_project(ctx: &Ctx, case: u64, schema_files: &[String], via_c
                     Err(_) => out.push(Violation { sig: "C16|server|cli|file-missing".into(), detail: "generate succeeded but out/server.ts does not exist".into(), replay: replay.clone() }),
                     Ok(module) => match read_schema_module(&module) {
                         Err(e) => out.push(Violation { sig: format!("C16|server|cli|module-shape|{}", e.split(' ').take(3).collect::<Vec<_>>().join("-")), detail: format!("{e} — module {:?}", clip(&module, 400)), replay: replay.clone() }),
-                        Ok(sdl) => out.extend(check_server_sdl(schema_files, &sdl, "cli", &replay)),
+                        Ok(sdl) => out.extend(check_server_sdl_with(schema_files, &sdl, "cli", &replay, model_plugin)),
                     },
                 }
             }
@@ -334,6 +368,37 @@ pub fn run(ctx: &Ctx, rep: &mut Report) {
                 let b = rng.s(BUILTIN_SCALARS).to_string();
                 crate::gen_schema::add_ts_type_directive(&mut doc, &b, &crate::gen_schema::four_way("string"), &mut rng);
             }
+        }
+        // the model plugin: @model on whole objects (with a type) or on single fields, anywhere among other directive
+        // applications, whose order the server schema has to keep
+        if rng.chance(1, 5) {
+            doc.defs.push(TsDef::Directive(DirectiveDef { desc: None, p: P::none(), name: nm("tagM"), args: vec![InputValueDef { desc: None, name: nm("n"), ty: Ty::named("Int"), default: None, dirs: vec![] }], repeatable: true, repeatable_p: P::none(), locations: vec![nm("OBJECT"), nm("FIELD_DEFINITION")] }));
+            let mut used = false;
+            for d in doc.defs.iter_mut() {
+                let TsDef::Type(t) = d else { continue };
+                if t.kind != TKind::Object || !rng.coin() {
+                    continue;
+                }
+                let tags = |rng: &mut crate::rng::Rng| -> Vec<Dir> { (0..rng.range(1, 3)).map(|i| Dir::new("tagM", vec![("n", Val::int(&format!("{}", i + 1)))])).collect() };
+                if !t.ext && rng.chance(1, 3) {
+                    let extra = tags(&mut rng);
+                    t.dirs.extend(extra);
+                    let at = rng.below(t.dirs.len() + 1);
+                    t.dirs.insert(at, Dir::new("model", vec![("type", Val::str("unknown"))]));
+                    used = true;
+                } else if !t.dirs.iter().any(|x| x.name.s == "model") {
+                    for f in t.fields.iter_mut() {
+                        if rng.coin() {
+                            let extra = tags(&mut rng);
+                            f.dirs.extend(extra);
+                            let at = rng.below(f.dirs.len() + 1);
+                            f.dirs.insert(at, Dir::new("model", vec![]));
+                            used = true;
+                        }
+                    }
+                }
+            }
+            let _ = used;
         }
         // 1-3 files
         let nfiles = rng.range(1, 3).min(doc.defs.len());
